@@ -983,6 +983,10 @@ func (app *BaseApp) runTx(mode runTxMode, txBytes []byte, tx sdk.Tx) (result sdk
 	// Create a new context based off of the existing context with a cache wrapped
 	// multi-store in case message processing fails.
 	runMsgCtx, newMS := app.txContext(ctx, txBytes) // todo edit here!!!
+	if mode != runTxModeDeliver {
+		// only DeliverTx may touch the live stores: everything else runs on a cache that is discarded
+		runMsgCtx = runMsgCtx.WithMultiStore(newMS.CacheMultiStore())
+	}
 	result = app.runMsg(runMsgCtx, msgs, mode)
 	result.GasWanted = gasWanted
 
